@@ -73,7 +73,7 @@ func TestC17RegressReputDoubleCount(t *testing.T) {
 		time.Sleep(5 * time.Second)
 		synctest.Wait()
 		m, _ := listCache(dir)
-		pa, _, pb := objOfSize(2, 0, M)
+		pa, _, pb := objOfSize(2, 100, M)
 		err := wc.Put(pa, nil, pb)
 		t.Logf("cache dir after flush: %v; put of exactly max size (%d bytes) -> %v", m, M, err)
 		if len(m) != 0 {
